@@ -39,8 +39,10 @@ def sinv(ctx_or_none, attrs, content, tag=""):
     for key, pred in (("min", is_nanmin), ("max", is_nanmax), ("mean", is_nanmean)):
         if key in d:
             v = d[key]
+            if isinstance(v, SInt):
+                v = SF(F.fin(z3.ToReal(v.e)))     # integer extremum of an integer feature
             if not isinstance(v, SF):
-                out.append((f"stored {key} is a float", z3.BoolVal(False)))
+                out.append((f"stored {key} is a number", z3.BoolVal(False)))
                 continue
             out.append((f"stored {key} equals the nan-{key} of the content", pred(ctx_or_none, v.e, content)))
         elif key in maybe:
@@ -75,15 +77,19 @@ class WriteNdarray1D(Contract):
     class_modules = {"RTDCWriter": "dclab.rtdc_dataset.writer"}
     params = ("self", "group", "name", "data", "dtype")
 
-    def __init__(self, **kw):
+    def __init__(self, kind="F", **kw):
+        self.kind = kind
+        if kind != "F":
+            self.name = f"RTDCWriter.write_ndarray[1-D,{kind}]"
         super().__init__(**kw)
         self.callees = {"RTDCWriter.get_best_nd_chunks": GetBestNdChunks()}
 
     def inputs(self, ctx):
-        data = ctx.arr("data", "F", inp=True, dtype=np.dtype("float64"))
+        dt = np.dtype("float64") if self.kind == "F" else np.dtype("int64")
+        data = ctx.arr("data", self.kind, inp=True, dtype=dt)
         data.item_shape = ()
         exists = ctx.bool("exists", inp=True)
-        old = ctx.arr("old", "F", inp=True, dtype=np.dtype("float64"))
+        old = ctx.arr("old", self.kind, inp=True, dtype=dt)
         maybe = {}
         for key in ("min", "max", "mean"):
             maybe[key] = (ctx.bool("has_" + key, inp=True), SF(ctx.const("old_" + key, F)))
@@ -106,9 +112,10 @@ class WriteNdarray1D(Contract):
 
     def requires(self, ctx, a):
         g = self._g
-        reqs = [("entries of the new data are finite or NaN", f_ok(g.data, "d")),
-                ("entries of the stored data are finite or NaN", f_ok(g.old, "o")),
-                ("an existing dataset is not empty", g.old.n >= 1)]
+        reqs = [("an existing dataset is not empty", g.old.n >= 1)]
+        if self.kind == "F":
+            reqs += [("entries of the new data are finite or NaN", f_ok(g.data, "d")),
+                     ("entries of the stored data are finite or NaN", f_ok(g.old, "o"))]
         reqs += [("SInv(existing dataset): " + n, f) for n, f in sinv(ctx, g.attrs0, g.old, "r")]
         if self._cnt0 is not None:
             from pyvc.npmodel import summary
@@ -152,7 +159,8 @@ class WriteNdarray1D(Contract):
         return posts
 
 
-UNITS = [WriteNdarray1D()]
+LEMMAS = ["summary_lemmas"]
+UNITS = [WriteNdarray1D(), WriteNdarray1D(kind="int")]
 TRUSTED = [GetBestNdChunks()]
 TRUSTED_BASE = [
     "floats as reals plus an explicit NaN (A-FP); +-inf not modelled (A-NOINF)",
@@ -229,6 +237,8 @@ UFUNCS = {"min": np.nanmin, "max": np.nanmax, "mean": np.nanmean}
 
 def summ_pred(ctx, key, r, arr):
     from pyvc.npmodel import is_nanmin, is_nanmax, is_nanmean
+    if isinstance(r, SInt):
+        r = SF(F.fin(z3.ToReal(r.e)))
     if not isinstance(r, SF):
         return z3.BoolVal(False)
     return {"min": is_nanmin, "max": is_nanmax, "mean": is_nanmean}[key](ctx, r.e, arr)
